@@ -29,6 +29,13 @@ class Recorder(object):
                 val = fn(*a, **kw)
                 out['ok'] = True
             except Exception as exc:
+                from sim import simfs
+                for e in (exc, exc.__context__, exc.__cause__):
+                    if e is not None and simfs.escaped_access(e):
+                        raise simfs.SeamGap(
+                            'the code under test reached the real file '
+                            'system for the simulated path %r (%s)'
+                            % (e.filename, type(e).__name__))
                 out['exc'] = type(exc).__name__
                 out['site'] = list(core.exc_site(exc))
                 out['msg'] = str(exc)[:200]
